@@ -1,6 +1,6 @@
 (* Prop_C06.v — property C06 (soil water content stays within physical bounds), stated about
    WaterModel / the groundwater field-capacity model read over the reals.  Only statements here. *)
-From Coq Require Import ZArith Reals List Bool.
+From Coq Require Import ZArith Reals List Bool PrimFloat.
 From Hermes Require Import Num RUtil WaterModel WaterProofs WaterBounds.
 Local Open Scope R_scope.
 
@@ -42,7 +42,18 @@ Theorem C06_fc_below_gw : forall (grw : R) (w porges : list R),
     ((S i < first)%nat -> nth i w' 0 = nth i w 0).
 Proof. exact fc_below_gw_lemma. Qed.
 
+(* binary64, for every float input (NaN included): after the overflow cascade a layer's storage is either exactly
+   the clamp value W*DZ or a value x with not (W < x/DZ), x/DZ being literally the reported water content *)
+Theorem C06_upper_bound_binary64 : forall (ls : list (PrimFloat.float * PrimFloat.float)) carry hc q1s,
+  length q1s = length ls ->
+  Forall2 (fun w1' (p : PrimFloat.float * PrimFloat.float) =>
+             w1' = PrimFloat.mul (snd p) (@DZ PrimFloat.float FloatNum) \/
+             PrimFloat.ltb (snd p) (PrimFloat.div w1' (@DZ PrimFloat.float FloatNum)) = false)
+          (fst (@cascade PrimFloat.float FloatNum carry hc ls q1s)) ls.
+Proof. exact cascade_upper_binary64. Qed.
+
 Print Assumptions C06_upper_bound.
+Print Assumptions C06_upper_bound_binary64.
 Print Assumptions C06_lower_bound_substep.
 Print Assumptions C06_uptake_keeps_limit.
 Print Assumptions C06_fc_below_gw.
